@@ -231,6 +231,32 @@ fn op_cli(line: &str, args: &[SExp]) -> CaseResult {
             oracle = Some("not a POST".into());
         }
     }
+    // direct oracle: the state query must let the printer report what the check reads - when it names the attributes it
+    // wants, printer-state and printer-state-reasons (or `all`) are among them; a printer that honours the list would
+    // otherwise never report its reasons
+    if !no_check && oracle.is_none() {
+        if let Some(c) = caps.first() {
+            if let Ok((h, a, _)) = parse_flat(&c.body) {
+                if h.operation_or_status == Operation::GetPrinterAttributes as u16 {
+                    let (m, _) = unbuild(&h, &a, false);
+                    let req = m.groups.iter().filter(|g| g.0 == 1).flat_map(|g| g.1.iter()).find(|x| x.0 == "requested-attributes").map(|x| x.1.clone());
+                    if let Some(v) = req {
+                        let words: Vec<String> = match &v {
+                            IppValue::Array(vs) => vs.iter().filter_map(|e| if let IppValue::Keyword(k) = e { Some(k.clone()) } else { None }).collect(),
+                            IppValue::Keyword(k) => vec![k.clone()],
+                            _ => vec![],
+                        };
+                        let has = |w: &str| words.iter().any(|k| k == w || k == "all" || k == "printer-description");
+                        if !has("printer-state") || !has("printer-state-reasons") {
+                            oracle = Some(format!("the state query asks only for {:?}: a printer that honours requested-attributes cannot report printer-state / printer-state-reasons", words));
+                        }
+                    }
+                } else {
+                    oracle = Some(format!("with the state check on, the first request is operation 0x{:04x}, not Get-Printer-Attributes", h.operation_or_status));
+                }
+            }
+        }
+    }
     // direct oracle (the property's wording): with the state check on, a printer that answers the query with
     // printer-state stopped or one of the ten blocking reasons gets no job and the exit status is non-zero
     if !no_check && oracle.is_none() {
@@ -256,6 +282,54 @@ fn op_cli(line: &str, args: &[SExp]) -> CaseResult {
                     oracle = Some("the printer was stopped or blocked but the exit status is zero".into());
                 }
             }
+        }
+    }
+    // direct oracle (the whole sentence of the property, read off the scripted answers): what must have been sent and
+    // whether the exit status must be zero
+    if oracle.is_none() {
+        let answer = |i: usize| -> Option<Option<crate::text::Msg>> {
+            answers.get(i).map(|a| if a.list().map(|l| l.len() == 1 && l[0].atom() == Some("http")).unwrap_or(false) { None } else { read_msg(a) })
+        };
+        let successful = |m: &crate::text::Msg| m.op <= 2; // successful-ok, …-ignored-or-substituted, …-conflicting
+        let (mut want_job, mut want_zero) = (true, true);
+        let mut next = 0;
+        if !no_check {
+            match answer(0) {
+                Some(Some(q)) if successful(&q) => {
+                    const BLOCKING: [&str; 10] = ["media-jam", "toner-empty", "spool-area-full", "cover-open", "door-open", "input-tray-missing",
+                        "output-tray-missing", "marker-supply-empty", "paused", "shutdown"];
+                    let pg = q.groups.iter().find(|g| g.0 == 4);
+                    let stopped = pg.map(|g| g.1.iter().any(|a| a.0 == "printer-state" && a.1 == IppValue::Enum(5))).unwrap_or(false);
+                    let blocked = pg.map(|g| g.1.iter().filter(|a| a.0 == "printer-state-reasons").any(|a| match &a.1 {
+                        IppValue::Keyword(k) => BLOCKING.contains(&k.as_str()),
+                        IppValue::Array(vs) => vs.iter().any(|v| matches!(v, IppValue::Keyword(k) if BLOCKING.contains(&k.as_str()))),
+                        _ => false,
+                    })).unwrap_or(false);
+                    if stopped || blocked {
+                        want_job = false;
+                        want_zero = false;
+                    }
+                }
+                _ => {
+                    want_job = false;
+                    want_zero = false;
+                }
+            }
+            next = 1;
+        }
+        if want_job {
+            match answer(next) {
+                Some(Some(j)) if successful(&j) => {}
+                _ => want_zero = false,
+            }
+        }
+        let n_jobs = caps.iter().filter(|c| parse_flat(&c.body).map(|(h, _, _)| h.operation_or_status == Operation::PrintJob as u16).unwrap_or(false)).count();
+        if want_job && n_jobs != 1 {
+            oracle = Some(format!("the printer answered the state query successfully and is neither stopped nor blocked (or the check is off): exactly one Print-Job must be submitted, {} were (exit status {})", n_jobs, code));
+        } else if !want_job && n_jobs != 0 {
+            oracle = Some(format!("nothing may be submitted here, but {} Print-Job request(s) were (exit status {})", n_jobs, code));
+        } else if want_zero != (code == 0) {
+            oracle = Some(format!("exit status {} but {}", code, if want_zero { "every IPP exchange succeeded with a successful status" } else { "not every IPP exchange succeeded with a successful status" }));
         }
     }
     let comps = crate::exec3::components(&uri);
